@@ -270,6 +270,7 @@ func checkC11(run *mon.Run, rng *mon.Rand, thorough bool) {
 		run.Declare(c, 10)
 	}
 	c11LongSuffix(run)
+	c11GenesisCounters(run)
 	c11Exhaustive(run, pick(thorough, 5, 6))
 	hist := pick(thorough, 24, 300)
 	steps := pick(thorough, 250, 500)
@@ -289,4 +290,55 @@ func checkC11(run *mon.Run, rng *mon.Rand, thorough bool) {
 		}
 	}
 	run.Extra["histories"] = hist
+}
+
+// c11GenesisCounters: a bridge imported from a genesis document whose next output index is 0 / 1 / unset and whose log is
+// empty: whatever is proposed afterwards, the stored outputs occupy exactly 1..next-1 (nothing is ever stored at index 0).
+func c11GenesisCounters(run *mon.Run) {
+	run.Declare("C11.imported_counter_keeps_log_contiguous", 2)
+	for _, nextIdx := range []uint64{0, 1} {
+		src := newL1Env(1, []time.Duration{10 * time.Second})
+		gs := src.L1.K.ExportGenesis(src.L1.Ctx)
+		gs.Bridges[0].NextOutputIndex = nextIdx
+		if err := ophosttypes.ValidateGenesis(gs, src.L1.AK.AddressCodec()); err != nil {
+			run.Count("C11.genesis_counter_refused_by_validation")
+			continue
+		}
+		dst := sim.NewL1(sim.L1Opts{})
+		dst.AK.InitGenesis(dst.Ctx, *src.L1.AK.ExportGenesis(src.L1.Ctx))
+		dst.BK.InitGenesis(dst.Ctx, src.L1.BK.ExportGenesis(src.L1.Ctx))
+		refused := func() (refused bool) {
+			defer func() {
+				if r := recover(); r != nil {
+					refused = true
+				}
+			}()
+			dst.K.InitGenesis(dst.Ctx, gs)
+			return false
+		}()
+		if refused {
+			run.Count("C11.genesis_counter_refused_by_import")
+			continue
+		}
+		proposer := src.Bridges[1].Proposer.String()
+		var tr []string
+		for step, idx := range []uint64{0, 0, 1, 0, 2, 1, 3} {
+			r := c11Root(idx, uint64(100+step), 0)
+			res := dst.Deliver(ophosttypes.NewMsgProposeOutput(proposer, 1, idx, uint64(100+step), r[:]))
+			run.Evaluations++
+			ids, _ := c11ReadLog(dst, 1)
+			next, _ := dst.K.GetNextOutputIndex(dst.Ctx, 1)
+			tr = append(tr, fmt.Sprintf("imported next index %d; propose(idx=%d) -> %s %s; stored indices %v next %d", nextIdx, idx, res.Class, res.ErrString(), ids, next))
+			ok := true
+			for i, x := range ids {
+				ok = ok && x == uint64(i+1)
+			}
+			// with an imported counter of 0 the log is empty and stays so until something is accepted; from then on 1..next-1
+			ok = ok && (uint64(len(ids))+1 == next || (len(ids) == 0 && next <= 1))
+			if !run.Check("C11.imported_counter_keeps_log_contiguous", ok, "c11.imported_counter_log", tr, "after importing next output index %d: stored output indices %v with next index %d do not occupy exactly 1..next-1", nextIdx, ids, next) {
+				break
+			}
+		}
+		run.Distinct(fmt.Sprintf("C11/genesis-counter/%d", nextIdx))
+	}
 }
